@@ -425,7 +425,7 @@ func run(r *eng.Runner) {
 
 	// ---- rooted names: literal == computed ----
 	// what an included template sees
-	r.Group("include-visibility", "c11.case", "an included template (static and lazy name) sees the includer's variables - the innermost binding of with / set / for / macro parameter over the caller's context over the set's globals - plus the with pairs, and only the pairs when only is given: 21 includer shapes x 2 name forms")
+	r.Group("include-visibility", "c11.case", "an included template (static and lazy name) sees the includer's variables - the innermost binding of with / set / for / macro parameter over the caller's context over the set's globals - plus the with pairs, and only the pairs when only is given: 25 includer shapes x 2 name forms")
 	{
 		inc := "[{{ v }}|{{ w }}|{{ x }}]"
 		type vis struct{ main, want string }
@@ -452,6 +452,11 @@ func run(r *eng.Runner) {
 			{`{% for w in "ab" %}{% include NAME with v=w only %}{% endfor %}`, "[a||ONLYX][b||ONLYX]"},
 			{`{% macro m(w) %}{% include NAME with v="pair-v" only %}{% endmacro %}{{ m("arg-w") }}`, "[pair-v||ONLYX]"},
 			{`{% with w="with-w" x="with-x" %}{% include NAME with v=w only %}{% endwith %}`, "[with-w||ONLYX]"},
+			// bindings of a scope that has ended (also when a parsed ssi ran inside it) are not the includer's variables any more
+			{`{% with w="with-w" %}{% ssi "s" parsed %}{% endwith %}{% include NAME %}`, "S[ctxv|ctxw|globx]"},
+			{`{% for v in "ab" %}{% ssi "s" parsed %}{% endfor %}{% include NAME %}`, "SS[ctxv|ctxw|globx]"},
+			{`{% with q="Q" %}{% include NAME %}{% endwith %}{% include NAME with w=q %}`, "[ctxv|ctxw|globx][ctxv||globx]"},
+			{`{% macro m(w) %}{% ssi "s" parsed %}{% endmacro %}{{ m("arg-w") }}{% include NAME %}`, "S[ctxv|ctxw|globx]"},
 		}
 		for i, p := range progs {
 			for _, nameForm := range []string{`"inc"`, `incname`} {
@@ -461,9 +466,40 @@ func run(r *eng.Runner) {
 					globals = nil // whether the set's globals count as "the pairs only" is not judged here
 				}
 				want := strings.ReplaceAll(p.want, "ONLYX", "")
-				r.Do(&Case{Loaders: []map[string]string{{"/main": main, "/inc": inc}}, Main: "/main", Vars: map[string]string{"w": "ctxw", "incname": "inc"}, Globals: globals,
-					Want: eng.Q(want), Fetch: []string{"/main", "/inc"}, Label: fmt.Sprint("visibility", i)})
+				files := map[string]string{"/main": main, "/inc": inc}
+				fetch := []string{"/main", "/inc"}
+				if strings.Contains(main, `ssi "s"`) {
+					files["/s"] = "S"
+					fetch = append(fetch, "/s")
+				}
+				r.Do(&Case{Loaders: []map[string]string{files}, Main: "/main", Vars: map[string]string{"w": "ctxw", "incname": "inc"}, Globals: globals,
+					Want: eng.Q(want), Fetch: fetch, Label: fmt.Sprint("visibility", i)})
 			}
+		}
+	}
+	// the same relative name computed at run time in templates of different directories, in one rendering
+	r.Group("same-relative-name", "c11.case", "two lazy includes of one rendering that evaluate to the same relative name but are written in templates of different directories (base and child of an inheritance chain; an imported macro and its importer; an included file and its includer): each gets the file next to the template it is written in")
+	{
+		cases := []struct {
+			label string
+			files map[string]string
+			main  string
+			want  string
+			fetch []string
+		}{
+			{"extends", map[string]string{"/base": `B[{% include rel %}]{% block a %}base{% endblock %}`, "/d/main": `{% extends "../base" %}{% block a %}<{% include rel %}>{% endblock %}`, "/part": "root-part", "/d/part": "d-part"},
+				"/d/main", "B[root-part]<d-part>", []string{"/base", "/d/main", "/part", "/d/part"}},
+			{"extends-child-first", map[string]string{"/base": `{% block a %}base{% endblock %}B[{% include rel %}]`, "/d/main": `{% extends "../base" %}{% block a %}<{% include rel %}>{% endblock %}`, "/part": "root-part", "/d/part": "d-part"},
+				"/d/main", "<d-part>B[root-part]", []string{"/base", "/d/main", "/part", "/d/part"}},
+			{"import", map[string]string{"/lib/m": `{% macro mac() export %}({% include rel %}){% endmacro %}`, "/main": `{% import "lib/m" mac %}{{ mac() }}[{% include rel %}]{{ mac() }}`, "/part": "root-part", "/lib/part": "lib-part"},
+				"/main", "(lib-part)[root-part](lib-part)", []string{"/lib/m", "/main", "/part", "/lib/part"}},
+			{"include", map[string]string{"/d/inc": `i({% include rel %})`, "/main": `[{% include rel %}]{% include "d/inc" %}[{% include rel %}]`, "/part": "root-part", "/d/part": "d-part"},
+				"/main", "[root-part]i(d-part)[root-part]", []string{"/d/inc", "/main", "/part", "/d/part"}},
+			{"loop", map[string]string{"/d/inc": `i({% include rel %})`, "/main": `{% for i in "ab" %}[{% include rel %}]{% include "d/inc" %}{% endfor %}`, "/part": "root-part", "/d/part": "d-part"},
+				"/main", "[root-part]i(d-part)[root-part]i(d-part)", []string{"/d/inc", "/main", "/part", "/d/part"}},
+		}
+		for _, c := range cases {
+			r.Do(&Case{Loaders: []map[string]string{c.files}, Main: c.main, Vars: map[string]string{"rel": "part"}, Want: eng.Q(c.want), Fetch: c.fetch, Label: "same-relative-name:" + c.label})
 		}
 	}
 	r.Group("literal-vs-computed", "c11.case", "a rooted name renders the same written as a literal and computed at run time, from every referrer location")
